@@ -39,6 +39,22 @@ pub fn from_bytes<T: DeserializeOwned>(fmt: Fmt, b: &[u8]) -> Result<T, String> 
     }
 }
 
+/// Does a `Fmt::Val` encoding contain a float that is not finite?
+pub fn has_nonfinite(b: &[u8]) -> bool {
+    fn walk(v: &Value) -> bool {
+        match v {
+            Value::F32(x) => !f32::from_bits(*x).is_finite(),
+            Value::F64(x) => !f64::from_bits(*x).is_finite(),
+            Value::Some(x) | Value::Variant(_, x) => walk(x),
+            Value::Seq(xs) => xs.iter().any(walk),
+            Value::Map(xs) => xs.iter().any(|(k, x)| walk(k) || walk(x)),
+            _ => false,
+        }
+    }
+    let mut pos = 0;
+    decode(b, &mut pos).map(|v| walk(&v)).unwrap_or(false)
+}
+
 #[derive(Clone, Debug, PartialEq)]
 pub enum Value {
     Unit,
